@@ -113,6 +113,18 @@ def run_case(c):
         r["names"] = r["out"]["names"] if r["ok"] else []
         r["out"] = r["out"]["fgs"] if r["ok"] else []
         R.append(r)
+        def g():
+            nc = NoteContainer().from_chord(name)
+            best = t.find_chord_fingering(nc, c["maxdist"], 18, c["maxfingers"], return_best_as_NoteContainer=True)
+            fg = [-1] * tp["strings"]
+            for n in best:
+                fg[integer(n.string)] = integer(n.fret)
+            return {"names": [nm(x.name) for x in nc], "fgs": [fg]}
+        r = call("find_chord_fingering", {"chord": name, "maxdist": c["maxdist"], "maxfingers": c["maxfingers"], "form": "best_as_NoteContainer"}, g)
+        r["tuning"] = tp
+        r["names"] = r["out"]["names"] if r["ok"] else []
+        r["out"] = r["out"]["fgs"] if r["ok"] else []
+        R.append(r)
     elif k == "prog":
         p = c["prog"]
         try:
@@ -132,6 +144,32 @@ def run_case(c):
             r["out"] = 0
             R.append(r)
         t0 = p["tracks"][0]
+        # the same music on a bass guitar whose tuning is supplied in the three possible ways
+        if c.get("bass"):
+            from mingus.containers.instrument import Instrument
+            bass = tunings.get_tuning("Bass guitar", "Standard 4-string")
+            for way in ("track", "instrument", "set_tuning"):
+                comp2 = mk_composition(p)
+                tr = comp2.tracks[0]
+                if way == "track":
+                    tr.tuning = bass
+                elif way == "instrument":
+                    tr.instrument = Instrument()
+                    tr.instrument.tuning = bass
+                else:
+                    tr.instrument = Instrument()
+                    tr.set_tuning(bass)
+                btp = tproj(bass)
+                r = call("tab_Composition", {"track": 1, "width": w, "tuning_via": way}, lambda: lex_tab(tablature.from_Composition(comp2, w + 20), btp["strings"]))
+                r["prog"], r["tuning"] = p, btp
+                r["tab"] = r["out"] if r["ok"] else {"blocks": []}
+                r["out"] = 0
+                R.append(r)
+                r = call("tab_Track", {"track": 1, "width": w, "tuning_via": way}, lambda: lex_tab(tablature.from_Track(comp2.tracks[0], w + 20), btp["strings"]))
+                r["prog"], r["tuning"] = p, btp
+                r["tab"] = r["out"] if r["ok"] else {"blocks": []}
+                r["out"] = 0
+                R.append(r)
         rec("tab_Composition", p, lambda: tablature.from_Composition(comp, w + 20))
         rec("tab_Track", p, lambda: tablature.from_Track(comp.tracks[0], w + 20))
         for bi, b in enumerate(t0["bars"][:3]):
